@@ -69,8 +69,10 @@ class IndexErr(Exception):
 class Summary:
     """Abstract interpretation of one ChildrenList method on one region."""
 
-    def __init__(self, func, region, params):
+    def __init__(self, func, region, params, cls=None):
         self.func = func
+        self.cls = cls
+        self.inline_depth = 0
         self.region = region
         self.env = {}
         self.events = []
@@ -332,6 +334,29 @@ class Summary:
                 events.append(("local-add", base.id, lineno))
             else:
                 raise AnalysisError(f"unsupported call '{fname}'")
+        elif fname.startswith("self.") and self.cls is not None and \
+                fname[5:] in self.cls.methods and self.inline_depth < 3:
+            # a helper of ChildrenList: interpret its body in place
+            helper = self.cls.methods[fname[5:]]
+            names = [a.arg for a in helper.args.args][1:]
+            if len(names) != len(call.args) or call.keywords:
+                raise AnalysisError(f"helper call '{fname}' with keyword "
+                                    f"or default arguments")
+            saved = dict(self.env)
+            bound = {}
+            for name, arg in zip(names, call.args):
+                try:
+                    bound[name] = self.int_expr(arg)
+                except AnalysisError:
+                    bound[name] = self.obj_expr(arg)
+            self.env.update(bound)
+            self.inline_depth += 1
+            was = self.terminated
+            self._run(helper.body, events)
+            if self.terminated == "return":
+                self.terminated = was
+            self.inline_depth -= 1
+            self.env = saved
         else:
             raise AnalysisError(f"unsupported call '{fname}' "
                                 f"(line {lineno})")
@@ -451,6 +476,27 @@ def check_atomic(run, mod, meth, region, events):
                 f"state already changed ({seen_change[0]}): a refusal "
                 f"would leave the tree modified (region {region.name})",
                 f"{mod.relpath}:{ev[-1]}")
+    # a loop body that both changes state and may raise: the check of
+    # iteration k+1 runs after the change of iteration k
+    def loops(evs):
+        for ev in evs:
+            if ev[0] in ("range", "each"):
+                body = ev[4] if ev[0] == "range" else ev[3]
+                yield ev, body
+                yield from loops(body)
+    for lev, body in loops(events):
+        kinds = {e[0] for e in flat(body)}
+        if kinds & set(STATE_CHANGE) and kinds & {
+                "validate", "orphan", "raise", "guard-raise"}:
+            ok = False
+            run.finding(
+                "C14.R1d", f"ChildrenList.{meth}",
+                "check and state change in the same loop",
+                f"a loop both checks (may raise) and changes the list per "
+                f"item: when the check fails for a later item the earlier "
+                f"items have already been added / linked, so the refused "
+                f"operation leaves the tree modified (region {region.name})",
+                f"{mod.relpath}:{lev[-1]}")
     run.ob("C14.R1d", ok, {"rule": "atomic", "method": meth,
                            "region": region.name, "ok": ok})
 
@@ -512,7 +558,7 @@ def check_mutators(idx, run):
                 elif name == "items":
                     params[name] = Obj("param", "items")
             try:
-                summ = Summary(func, region, params)
+                summ = Summary(func, region, params, cls)
             except AnalysisError as err:
                 raise AnalysisError(
                     f"ChildrenList.{meth} left the interpretable subset on "
